@@ -283,7 +283,14 @@ impl AsmParser {
             }
         };
 
-        debug_assert!(self.toks.next().is_none(), "expected end of line");
+        // Exactly one instruction is allowed
+        if let Some(surplus) = self.toks.next() {
+            return Err(error::parse_generic_unexpected(
+                self.src,
+                "end of line",
+                surplus,
+            ));
+        }
 
         Ok(stmt)
     }
